@@ -380,6 +380,12 @@ func (e *Engine) wellFormed(v Val, wf *[]*Term, input bool) {
 	case PtrVal:
 		if input && x.Loc == nil {
 			*wf = append(*wf, c.ILe(x.Ref, c.Inti(0))) // pre-existing object
+			*wf = append(*wf, c.ILt(c.Inti(localIDBase), x.Ref))
+		}
+	case OpaqueVal:
+		if input {
+			// identities at or below localIDBase are reserved for local variables whose address is taken
+			*wf = append(*wf, c.ILt(c.Inti(localIDBase), x.ID))
 		}
 	case SliceVal:
 		if e.IntIdx() {
@@ -546,6 +552,17 @@ func (e *Engine) heap(st *State, key string, s *Sort) *Term {
 	if !existed && strings.HasSuffix(key, "#ref") && strings.HasPrefix(key, "O:") {
 		e.objSliceAxiom(strings.TrimSuffix(key, "#ref"))
 	}
+	if !existed && (strings.HasSuffix(key, "#ptr") || strings.HasSuffix(key, "#id")) {
+		// identities stored in the initial heap are not those reserved for local variables
+		c := e.C
+		r := c.Bound("r", IntSort)
+		if strings.HasPrefix(key, "S:") {
+			j := c.Bound("j", e.IdxSort())
+			c.Axioms = append(c.Axioms, c.Forall([]*Term{r, j}, c.ILt(c.Inti(localIDBase), c.Select(c.Select(h, r), j))))
+		} else if strings.HasPrefix(key, "O:") {
+			c.Axioms = append(c.Axioms, c.Forall([]*Term{r}, c.ILt(c.Inti(localIDBase), c.Select(h, r))))
+		}
+	}
 	if !existed && strings.HasSuffix(key, "#ptr") {
 		// pointers stored in the initial heap refer to pre-existing objects
 		c := e.C
@@ -598,6 +615,10 @@ func guardedPtrAxiomOld(key string) bool {
 	}
 	return false
 }
+
+// localIDBase: identities at or below this value denote local variables whose address is taken
+// (ptrIdentity); input references and identities are above it.
+const localIDBase = -(int64(1) << 40)
 
 func (e *Engine) geZero(t *Term) *Term {
 	if t.Sort == IntSort {
